@@ -106,6 +106,7 @@ def clsStr : ErrClass → String
   | .missing => "missing"
   | .notModule => "not-module"
   | .duplicate => "duplicate"
+  | .badName => "bad-name"
   | .crash => "crash"
 
 def errStr (e : Err) : String :=
